@@ -43,7 +43,10 @@ func c07Session(pos map[int]string) *saml.Session {
 	s.UserScopedAffiliation = get(6, "staff@example.com")
 	s.Groups = []string{"Users", get(7, "Staff"), "Wonderland"}
 	s.CustomAttributes = []saml.Attribute{{Name: get(9, "urn:custom:attr"), FriendlyName: get(10, "custom"), NameFormat: "urn:oasis:names:tc:SAML:2.0:attrname-format:uri",
-		Values: []saml.AttributeValue{{Type: "xs:string", Value: "first"}, {Type: "xs:string", Value: get(8, "second")}}}}
+		Values: []saml.AttributeValue{{Type: "xs:string", Value: "first"}, {Type: "xs:string", Value: get(8, "second")}}},
+		// an attribute that is a bare flag: a name, no value (valid SAML) - and one whose only value is the empty string
+		{Name: "urn:example:mfa-done", FriendlyName: "mfa", NameFormat: "urn:oasis:names:tc:SAML:2.0:attrname-format:uri"},
+		{Name: "urn:example:empty-valued", NameFormat: "urn:oasis:names:tc:SAML:2.0:attrname-format:uri", Values: []saml.AttributeValue{{Type: "xs:string", Value: ""}}}}
 	s.Index = get(11, "session-index-1")
 	s.EduPersonPrincipalName = get(12, "alice-principal@idm.example.com") // set next to a different UserEmail
 	s.SubjectID = get(13, "subject-0001@example.com")
@@ -62,6 +65,8 @@ type c07Cfg struct {
 	spName string
 	// the metadata registered at the IdP carries an AttributeConsumingService asking for every attribute name the IdP knows how to fill
 	reqAttrs bool
+	// the login happens this long after SP and IdP exchanged metadata (nothing else changes: same keys, same certificates)
+	aged time.Duration
 }
 
 func (c c07Cfg) String() string {
@@ -71,6 +76,9 @@ func (c c07Cfg) String() string {
 	}
 	if c.reqAttrs {
 		s += "/requested-attributes"
+	}
+	if c.aged != 0 {
+		s += "/login-" + c.aged.String() + "-after-the-metadata-exchange"
 	}
 	return s
 }
@@ -221,6 +229,10 @@ func newWorld(cf c07Cfg) *c07World {
 // roundTrip: SP emits a request, IdP answers for sess, SP parses. Returns the IdP's in-memory assertion and the SP's parsed one.
 func (w *c07World) roundTrip(cf c07Cfg, sess *saml.Session) (sent *saml.Assertion, got *saml.Assertion, stage string, err error) {
 	w.fs.S = sess
+	if cf.aged != 0 {
+		harness.SetNow(samlgen.T0.Add(cf.aged))
+		defer harness.SetNow(samlgen.T0)
+	}
 	var hr *http.Request
 	var reqID string
 	if cf.binding == "redirect" {
@@ -669,6 +681,11 @@ func runC07(c *core.Ctx) {
 	for _, enc := range []bool{false, true} {
 		for _, b := range []string{"redirect", "post"} {
 			cfgs = append(cfgs, c07Cfg{enc: enc, entitySet: true, spKey: "sp2048", binding: b, idpKey: "idp1", reqAttrs: true}, c07Cfg{enc: enc, entitySet: false, spKey: "spec256", binding: b, idpKey: "idpec", idpMethod: dsig.ECDSASHA256SignatureMethod, reqAttrs: true, spName: "trailing-slash"})
+		}
+	}
+	for _, aged := range []time.Duration{49 * time.Hour, 30 * 24 * time.Hour, 400 * 24 * time.Hour} {
+		for _, enc := range []bool{false, true} {
+			cfgs = append(cfgs, c07Cfg{enc: enc, entitySet: true, spKey: "sp2048", binding: "redirect", idpKey: "idp1", aged: aged}, c07Cfg{enc: enc, entitySet: true, spKey: "spec256", binding: "post", signReq: true, idpKey: "idpec", idpMethod: dsig.ECDSASHA256SignatureMethod, aged: aged})
 		}
 	}
 	probes := []map[int]string{{}, {0: "a&b<c>\"d'", 8: " lead and trail ", 7: "\n"}, {0: "\U0001F600é", 3: "]]><!--", 9: "urn:x:&<>"}}
